@@ -58,6 +58,10 @@ CLAIMED = {
             "24 theorems incl. ev_ready_once, ev_second_set_err_nochange, ev_wait_returns_after_ready_with_value, ev_test_not_early, ev_reset, fut_ready_at_nth, fut_callback_once_before_any_return, fut_extra_set_err, fut_values_all_passed, fut_zero_compartments (documented behaviour: no callback for 0 compartments; see DESIGN).",
             "Trusted: Lean kernel; sequential consistency; vsched/projection machinery.",
             "DESIGN.md §5 C09"),
+    "C10": ("Lean 4 inductive-invariant proofs over an interleaving LTS of ABT_rwlock (internal mutex critical sections, reader_count / write_flag, cond wait-list) + T1 skeleton tie of rwlock.c and the mutex / cond / wait-list functions it calls + T3 validation of controlled-scheduler traces (rwlock snapshots at every acquire/release of the internal mutex; embedded mutex and cond validated against Model.Mutex / Model.Cond)",
+            "Theorems rw_writer_excl, rw_readers_share, rw_no_stuck_safety, rw_unlock_wakes_all, rw_deadlock_free, rw_blocked_has_cause, rw_tasklet_rejected_nochange for every reachable state and any number of lockers; holder-counter monitors in the scenario; model-independent oracle for every blocking reader/writer.",
+            "Trusted: Lean kernel; sequential consistency; vsched/hook/projection machinery; abstraction of the embedded mutex/cond justified by C04/C05 theorems and re-validated on every trace.",
+            "DESIGN.md §5 C10"),
     "C01": ('Lean 4 inductive-invariant proofs over Model.Sched (a specification automaton of the work-unit life cycle at the granularity of runtime events, pools as bags, any number of units/pools/streams, all interleavings) + T1 skeleton tie of the scheduling / context-switch / life-cycle functions + T3 validation of controlled-scheduler traces of generated work-unit programs against the model',
             'Theorems once_push_from_unreachable, once_pop_takes_out, once_run_exclusive, once_start_le_one, once_terminated_ran, once_join_after_end, once_units_independent; scenario monitors count starts/finishes/arguments per unit across FIFO/FIFO_WAIT/RANDWS pools, BASIC/BASIC_WAIT/PRIO/RANDWS schedulers, children, unnamed units, tasklets, migration, suspension, cancellation.',
             'Trusted: Lean kernel; sequential consistency; vsched/hook/projection machinery (vlib/t3_sched.py). The model is a specification automaton: its guards state what the scheduling code may do and T3 checks that every explored execution of the real code is accepted; liveness only as deadlock/livelock freedom on explored schedules.',
